@@ -27,5 +27,7 @@ PoolThorough == PoolQuick \cup {
   K("rrst", {}, {"Authn"}, TRUE, TRUE, {"Authn"}, TRUE),
   K("minfo", {}, {}, FALSE, FALSE, {}, TRUE),
   K("both", {"Secure"}, {"Ready"}, TRUE, TRUE, {"Secure", "Authn"}, FALSE) }
+(* the smallest pool in which every code-like deviation of Negotiation.tla shows (non-vacuity runs) *)
+PoolTiny == {k \in PoolQuick : k.id \in {"vol", "bind", "tls"}}
 InitBitsAll == { {}, {"Secure"}, {"Secure", "Authn"} }
 =============================================================================
